@@ -20,7 +20,7 @@ import typing as t
 
 from .. import astq
 from ..cfg import cfg_of
-from ..effects import INF, PS, Effects, Flow, PathSim, Site, St, _subst_key, codec_call, const_int
+from ..effects import _ASCII_CODECS, _ASCII_COMPATIBLE, _LATIN1_CODECS, INF, PS, Effects, Flow, PathSim, Site, St, _subst_key, codec_call, const_int
 from ..fold import Folder, RegexConst, class_of_items, sre_c
 from ..guards import canon
 from ..loader import AnalysisError, ClassInfo, FuncInfo, dotted, norm, walk_no_nested
@@ -125,7 +125,7 @@ def role_latin1_input(a: A, s: Site, e: str) -> Verdict:
     if s.kind != "encode" or e != "UnicodeEncodeError" or not isinstance(s.node, ast.Call):
         return None
     cc = codec_call(s.node)
-    if cc is None or cc[0] != "encode" or cc[2] not in ("latin1", "latin-1", "iso-8859-1", "iso8859-1"):
+    if cc is None or cc[0] != "encode" or cc[2] not in _LATIN1_CODECS:
         return None
     recv = cc[1]
     node = a.flow.node(s.func, s.node)
@@ -787,66 +787,19 @@ def role_octal_escape(a: A, s: Site, e: str) -> Verdict:
 
 
 def _ascii_bytes(a: A, fi: FuncInfo, e: ast.AST, node, st: St = St(), depth: int = 0) -> bool:
-    if depth > 12:
-        return False
-    if isinstance(e, ast.Constant):
-        return isinstance(e.value, bytes) and all(c < 128 for c in e.value)
-    cc = codec_call(e)
-    if cc is not None and cc[0] == "encode":
-        enc = cc[2] or ""
-        if enc in ("ascii", "us-ascii"):
-            return True
-        if enc in ("utf-8", "utf8", "latin1", "latin-1", "iso-8859-1") and node is not None:
-            # ASCII text encodes to the same ASCII bytes in every ASCII-compatible codec
-            recv = cc[1]
-            ks = a.flow.keys(fi, recv, node)
-            hit = a.flow.holds(fi, node, lambda at: at.op == "truthy" and at.truth and isinstance(at.a, ast.Call) and isinstance(at.a.func, ast.Attribute) and at.a.func.attr == "isascii" and not at.a.args and norm(at.a.func.value) in ks)
-            return hit is not None
-        return False
-    if isinstance(e, ast.Call) and isinstance(e.func, ast.Attribute):
-        m = e.func.attr
-        if m in ("split", "rsplit", "strip", "lstrip", "rstrip", "lower", "upper", "partition", "rpartition", "splitlines"):
-            return _ascii_bytes(a, fi, e.func.value, node, st, depth + 1)
-        return False
-    if isinstance(e, ast.Call) and dotted(e.func) in ("bytes", "bytearray", "memoryview") and len(e.args) == 1:
-        return _ascii_bytes(a, fi, e.args[0], node, st, depth + 1)
-    if isinstance(e, ast.Subscript):
-        return _ascii_bytes(a, fi, e.value, node, st, depth + 1)
-    if isinstance(e, ast.Name):
-        cb = a.flow._comp_binding(fi, e) if hasattr(e, "_parent") else None
-        if cb is not None:
-            return _ascii_bytes(a, fi, cb[0].iter, node, st, depth + 1)
-        if node is None:
-            return False
-        defs = a.flow.rd(fi).reaching(node, e.id)
-        if not defs:
-            return False
-        for d in defs:
-            if d.kind in ("assign", "walrus", "unpack", "for") and d.value is not None:
-                if not _ascii_bytes(a, fi, d.value, d.node, st, depth + 1):
-                    return False
-            elif d.kind == "param":
-                srcs = a.flow.param_sources(fi, d.name, st)
-                if srcs is None:
-                    return False
-                for f2, x, n2, s2 in srcs:
-                    if not _ascii_bytes(a, f2, x, n2, s2, depth + 1):
-                        return False
-            else:
-                return False
-        return True
-    return False
+    """the value holds only bytes < 128: decided by Flow.ascii_only (origins, dominating `is ASCII` tests, call sites)."""
+    return a.flow.ascii_only(fi, e, node, st, depth)
 
 
 def role_ascii_decode(a: A, s: Site, e: str) -> Verdict:
     if s.kind != "decode" or e != "UnicodeDecodeError" or not isinstance(s.node, ast.Call):
         return None
     cc = codec_call(s.node)
-    if cc is None or cc[0] != "decode" or cc[2] not in ("ascii", "us-ascii"):
+    if cc is None or cc[0] != "decode" or cc[2] not in _ASCII_CODECS | _ASCII_COMPATIBLE:
         return None
     node = a.flow.node(s.func, s.node)
     if _ascii_bytes(a, s.func, cc[1], node):
-        return True, "the receiver is (a piece of) the result of <str>.encode('ascii') on every definition that reaches it, across the call boundary: ASCII bytes decode as ASCII"
+        return True, "the receiver holds only ASCII bytes on every definition that reaches it, across the call boundary ((a piece of) the result of <str>.encode('ascii'), or of an ASCII-compatible encode of a text tested with isascii(), or bytes tested with isascii()): ASCII bytes decode as ASCII in every ASCII-compatible codec"
     return None
 
 
